@@ -709,8 +709,11 @@ def _gen_default_case(rng):
             "erf": rng.choice(["default", "default", "default", None, rs(0.5)])}
     if rng.random() < 0.5:
         case["absdelta"] = rs(rng.choice([1e-3, 1e-1, 1.0, 10.0]))
-    if rng.random() < 0.25:
-        case["old_fval"] = rs(float(_pyval(poly, [float(v) for v in x0])) + rng.choice([0.5, 2.0, 10.0]))
+    if rng.random() < 0.6:
+        # a previous energy far above the start: the CG's energy criterion (energy_reduction_factor*(old_fval - energy))
+        # is generous and stops the inner solver before its residual criterion
+        case["old_fval"] = rs(float(_pyval(poly, [float(v) for v in x0])) + rng.choice([0.5, 2.0, 10.0, 100.0, 1000.0]))
+        case["cg"]["miniter"] = rng.choice([0, 1])
     return case
 
 
@@ -735,6 +738,92 @@ def _gen_trust_case(rng):
                 return {"op": "ncg", "family": "doublewell", "poly": poly, "x0": [rs(x0)], "split": 0, "miniter": None,
                         "maxiter": 1, "absdelta": None, "xtol": rs(1e-5), "cg": None, "trust": True,
                         "trust_radius": rs(r), "trust_target": True}
+    return None
+
+
+def _steihaug_replica(B, g, tr, resnorm=1e-10, maxiter=None):
+    """generator-side float replica of `_cg_steihaug_subproblem` (radius tested in the inf-norm, intersections with the
+    Euclidean ball) used only to FIND inputs; returns (step, pred_f) with pred_f relative to cur_val = 0"""
+    n = len(g)
+    maxiter = 20 * n if maxiter is None else maxiter
+    soa = lambda p: float(g @ p + 0.5 * p @ B @ p)
+
+    def inter(z, d):
+        a, b, c = d @ d, 2 * (z @ d), z @ z - tr ** 2
+        disc = b * b - 4 * a * c
+        if disc < 0 or a == 0:
+            return None
+        aux = b + math.copysign(math.sqrt(disc), b)
+        if aux == 0:
+            return None
+        ta, tb = -aux / (2 * a), -2 * c / aux
+        return (ta, tb) if ta < tb else (tb, ta)
+    z = np.zeros(n)
+    r = g.copy()
+    d = -r
+    for nit in range(1, maxiter + 1):
+        Bd = B @ d
+        dBd = d @ Bd
+        r2 = r @ r
+        if dBd == 0 or r2 == 0:
+            return None
+        alpha = r2 / dBd
+        zn = z + alpha * d
+        rn = r + alpha * Bd
+        if dBd <= 0:
+            t = inter(z, d)
+            if t is None:
+                return None
+            pa, pb = z + t[0] * d, z + t[1] * d
+            p = pa if soa(pa) < soa(pb) else pb
+            return p, soa(p)
+        if np.max(np.abs(zn)) >= tr:
+            t = inter(z, d)
+            if t is None:
+                return None
+            p = z + t[1] * d
+            return p, soa(p)
+        if nit >= maxiter or np.sum(np.abs(rn)) < resnorm:
+            return zn, soa(zn)
+        d = -rn + (rn @ rn) / r2 * d
+        z, r = zn, rn
+    return None
+
+
+def _gen_trust_mixed_case(rng):
+    """targeted: quadratic objective and trust radius between the inf-norm and the 2-norm of the first CG iterate of the
+    sub-problem: the regime where `_cg_steihaug_subproblem` (radius tested in the inf-norm, intersections with the Euclidean
+    ball) can predict an INCREASE (found with a generator-side replica); an acceptance rule that ignores the sign of the
+    predicted reduction goes uphill there"""
+    for _ in range(20000):
+        n = rng.randint(2, 3)
+        A = [[rng.randint(-4, 4) for _ in range(n)] for _ in range(n)]
+        B = [[Fraction(A[a][b] + A[b][a], 2) for b in range(n)] for a in range(n)]
+        g = [rng.randint(-5, 5) for _ in range(n)]
+        gg = sum(v * v for v in g)
+        c = sum(g[a] * B[a][b] * g[b] for a in range(n) for b in range(n))
+        if gg == 0 or c <= 0:
+            continue
+        z1 = [-Fraction(gg) / c * v for v in g]
+        lo, hi = max(abs(v) for v in z1), math.sqrt(float(sum(v * v for v in z1)))
+        if hi <= float(lo) * 1.02:
+            continue
+        tr = float(lo) + (hi - float(lo)) * rng.choice([0.1, 0.5, 0.9])
+        rep = _steihaug_replica(np.array([[float(v) for v in row] for row in B]), np.array(g, dtype=float), tr)
+        if rep is None or not (rep[1] > 1e-6 and np.all(np.isfinite(rep[0]))):
+            continue
+        poly = [_mono(g[a], _unit(n, a, 1)) for a in range(n) if g[a]]
+        for a in range(n):
+            if B[a][a]:
+                poly.append(_mono(B[a][a] / 2, _unit(n, a, 2)))
+            for b in range(a + 1, n):
+                if B[a][b]:
+                    e = [0] * n
+                    e[a] = e[b] = 1
+                    poly.append(_mono(B[a][b], e))
+        return {"op": "ncg", "family": "quadratic", "poly": poly, "x0": ["0"] * n, "split": 0, "miniter": None, "maxiter": 1,
+                "absdelta": None, "xtol": rs(1e-5), "cg": None, "trust": True, "trust_radius": rs(tr), "trust_mixed": True,
+                "trust_maxiter": rng.choice([1, 2, 4])}
     return None
 
 
@@ -808,6 +897,8 @@ def _check(ctx, cases):
             ctx.stat("nan_region")
         if c.get("trust_target"):
             ctx.stat("trust_slightly_uphill_trial")
+        if c.get("trust_mixed"):
+            ctx.stat("trust_mixed_norm_regime")
         if c.get("reset_target"):
             ctx.stat("reset_target=" + c["reset_target"])
         ctx.case(c, _nontrivial(c))
@@ -856,7 +947,7 @@ def run(ctx):
         cases.append(_gen_case(ctx.rng, ctx.quick, modelled=True))
     for _ in range(ctx.n(2, 30)):
         cases.append(_gen_case(ctx.rng, ctx.quick, modelled=False))
-    for _ in range(ctx.n(3, 30)):
+    for _ in range(ctx.n(4, 30)):
         cases.append(_gen_default_case(ctx.rng))
     for _ in range(ctx.n(3, 24)):
         c = _gen_reset_case(ctx.rng)
@@ -864,6 +955,10 @@ def run(ctx):
             cases.append(c)
     for _ in range(ctx.n(2, 16)):
         c = _gen_trust_case(ctx.rng)
+        if c is not None:
+            cases.append(c)
+    for _ in range(ctx.n(2, 12)):
+        c = _gen_trust_mixed_case(ctx.rng)
         if c is not None:
             cases.append(c)
     for _ in range(ctx.n(1, 20)):
@@ -876,8 +971,19 @@ def run(ctx):
 
 
 def search(ctx):
-    for _ in range(ctx.n(20, 100)):
-        c = _gen_case(ctx.rng, True, modelled=False)
+    """a proof / correspondence broke and no failing input is known: run the property oracle (real code only) on the
+    corpus and on every targeted stream (negative-curvature starts, near-tie trials, reset/abort trials, slightly uphill
+    and mixed-norm trust-region steps, default-CG plumbing), then on plain generated cases"""
+    gens = [lambda: _gen_reset_case(ctx.rng), lambda: _gen_trust_case(ctx.rng), lambda: _gen_trust_mixed_case(ctx.rng),
+            lambda: _gen_default_case(ctx.rng), lambda: _gen_case(ctx.rng, True, modelled=True),
+            lambda: _gen_case(ctx.rng, True, modelled=False), lambda: _gen_trig(ctx.rng)]
+    cases = _load_corpus()
+    for _ in range(ctx.n(8, 30)):
+        for gfun in gens:
+            c = gfun()
+            if c is not None:
+                cases.append(c)
+    for c in cases:
         r = oracle(c)
         if r is not None:
             ctx.counterexample(c, r[0], r[1])
